@@ -22,7 +22,7 @@ EMPTY_FACTS = """(* translator failed: %s *)
 From Coq Require Import String List Bool.
 From Raven Require Import Model.ProtoFacts.
 Import ListNotations.
-Definition table : facts := mk_facts [] [] [] false false false.
+Definition table : facts := mk_facts [] [] [] false false false false.
 """
 
 
